@@ -7,6 +7,8 @@
 //!   simcheck worker <id> <seed> <lo> <hi> <tier>   (internal)
 //!   simcheck exec <id> <file>                      (internal)
 mod c02;
+mod c11;
+mod c12;
 mod c15;
 mod c16;
 mod c17;
@@ -26,6 +28,8 @@ pub const DEFAULT_SEED: u64 = 20_260_925;
 fn engine(id: &str) -> &'static dyn Engine {
     match id {
         "C02" => &c02::C02,
+        "C11" => &c11::C11,
+        "C12" => &c12::C12,
         "C15" => &c15::C15,
         "C16" => &c16::C16,
         "C17" => &c17::C17,
@@ -84,6 +88,13 @@ fn main() {
             let lo: u64 = arg(4).parse().expect("lo");
             let hi: u64 = arg(5).parse().expect("hi");
             common::worker_main(e, seed, lo, hi, Tier::parse(arg(6)));
+        }
+        "gen" => {
+            // print the materialised case of run <index> (for debugging)
+            let e = engine(arg(2));
+            let c = ctx(Tier::parse(arg(4)));
+            let i: u64 = arg(3).parse().expect("index");
+            println!("{}", serde_json::to_string(&e.generate(c.seed, i, c.tier)).unwrap());
         }
         "exec" => {
             let e = engine(arg(2));
